@@ -4,8 +4,10 @@ import (
 	"context"
 	"fmt"
 	"strings"
+	"time"
 
 	"verif/harness/evid"
+	"verif/harness/oracle"
 	"verif/harness/rig"
 
 	"github.com/attestantio/dirk/core"
@@ -29,6 +31,7 @@ func C07(cfg Cfg) int {
 	run.Assume = []string{"reference model oracle.PermTable.Allowed transcribes the statement; Go regexp is used by both sides but anchoring/grouping is the model's own"}
 	c07Checker(run, cfg)
 	c07Services(run, cfg)
+	c07Wire(run, cfg)
 	return run.Finish()
 }
 
@@ -207,22 +210,28 @@ func c07Services(run *evid.Run, cfg Cfg) {
 				}
 			}
 			// Wallet manager.
-			for _, w := range wallets {
-				for _, op := range []string{"Lock wallet", "Unlock wallet"} {
+			for wi, w := range wallets {
+				for oi, op := range []string{"Lock wallet", "Unlock wallet", "Lock wallet"} {
 					wl, _ := env.Synth.FetchWallet(context.Background(), w)
 					wasUnlocked, _ := wl.(e2wtypes.WalletLocker).IsUnlocked(context.Background())
+					// The wallet may be named with an account suffix: it still resolves to the wallet, and the
+					// decision has to be taken on what is resolved.
+					req := w
+					if (wi+oi+t)%2 == 1 {
+						req = w + "/" + accts[(wi+oi)%len(accts)]
+					}
 					var res core.Result
 					if op == "Lock wallet" {
-						res, _ = env.Stack.WalletMgr.Lock(context.Background(), env.Creds, w)
+						res, _ = env.Stack.WalletMgr.Lock(context.Background(), env.Creds, req)
 					} else {
-						res, _ = env.Stack.WalletMgr.Unlock(context.Background(), env.Creds, w, []byte("pass"))
+						res, _ = env.Stack.WalletMgr.Unlock(context.Background(), env.Creds, req, []byte("pass"))
 					}
 					allowed := g.Model.Allowed(client, w, "", op)
 					nowUnlocked, _ := wl.(e2wtypes.WalletLocker).IsUnlocked(context.Background())
 					run.Eval(1)
 					run.Distinct(fmt.Sprintf("service walletmanager %s allowed=%v -> %s", op, allowed, res))
 					if res == core.ResultSucceeded && !allowed {
-						run.Violate(fmt.Sprintf("%s carried out on %s although client %q is not allowed to", op, w, client), g.Model)
+						run.Violate(fmt.Sprintf("%s carried out on wallet %s (named as %q) although client %q is not allowed to", op, w, req, client), g.Model)
 					}
 					if !allowed && nowUnlocked != wasUnlocked {
 						run.Violate(fmt.Sprintf("refused %s on %s changed the wallet's lock state", op, w), g.Model)
@@ -316,5 +325,137 @@ func c07Managers(run *evid.Run, cfg Cfg, g *PermGen, t int) {
 			}
 			run.Count("manager_ops", 1)
 		}
+	}
+}
+
+// permutations of small slices.
+func permutations(n int) [][]int {
+	if n == 0 {
+		return [][]int{{}}
+	}
+	var out [][]int
+	for _, p := range permutations(n - 1) {
+		for i := 0; i <= len(p); i++ {
+			q := append(append(append([]int{}, p[:i]...), n-1), p[i:]...)
+			out = append(out, q)
+		}
+	}
+	return out
+}
+
+// allowedInAnyOrder evaluates the model under every ordering of the client's entries (the daemon's
+// configuration is a YAML mapping, so the order in which main.go hands the entries to the checker is not defined).
+func allowedInAnyOrder(t oracle.PermTable, client, wallet, account, op string) (some, all bool) {
+	entries := t[client]
+	if len(entries) == 0 {
+		return false, false
+	}
+	all = true
+	for _, p := range permutations(len(entries)) {
+		re := make([]oracle.PermEntry, len(entries))
+		for i, j := range p {
+			re[i] = entries[j]
+		}
+		if (oracle.PermTable{client: re}).Allowed(client, wallet, account, op) {
+			some = true
+		} else {
+			all = false
+		}
+	}
+	return some, all
+}
+
+// c07Wire mounts generated tables in the real daemon's configuration file (main.go's own parsing) and checks
+// over TLS/gRPC that an operation the table allows under NO ordering of the entries is never carried out.
+func c07Wire(run *evid.Run, cfg Cfg) {
+	r := cfg.Rand("c07-wire")
+	ca, err := rig.NewCA("verif-ca")
+	if err != nil {
+		run.Inconclusive(err.Error())
+		return
+	}
+	wallets := map[string][]string{"Wallet1": {"acct1", "acct2"}, "Wallet2": {"acct1", "val"}, "Cold": {"b", "acct2"}}
+	for round := 0; round < cfg.N(3, 30) && run.NumViolations() < 5; round++ {
+		g := genPermTable(r, []string{"client1", "client2"}, c07Wallets, c07Accounts)
+		perms := map[string]map[string][]string{}
+		model := oracle.PermTable{}
+		for c, es := range g.Model {
+			perms[c] = map[string][]string{}
+			for _, e := range es {
+				if _, dup := perms[c][strings.ToLower(e.Path)]; dup || len(model[c]) >= 4 {
+					continue // a YAML mapping cannot hold the same path twice; keep the permutation count small
+				}
+				perms[c][strings.ToLower(e.Path)] = e.Ops
+				model[c] = append(model[c], e)
+			}
+		}
+		port := rig.FreePort("127.0.0.1")
+		d, err := rig.PrepareDaemon(rig.DaemonOpts{Dir: cfg.Dir(fmt.Sprintf("c07-wire-%d", round%3)), ID: 1, IP: "127.0.0.1", Port: port, CA: ca,
+			Peers: map[uint64]string{1: fmt.Sprintf("127.0.0.1:%d", port)}, Permissions: perms, NDWallets: wallets})
+		if err != nil {
+			run.Inconclusive(err.Error())
+			return
+		}
+		if err := d.Start(); err != nil {
+			// A table the daemon refuses to start with (e.g. an expression invalid in its anchored form) is not judged.
+			run.Count("wire_tables_rejected_by_daemon", 1)
+			d.Kill()
+			continue
+		}
+		epoch := uint64(10)
+		for _, client := range []string{"client1", "client2", "stranger"} {
+			crt, _ := ca.Issue(rig.CertOpts{CN: client})
+			conn, err := rig.Dial(d.Addr, rig.ClientTLS(ca, crt.TLS), "")
+			if err != nil {
+				continue
+			}
+			signer, lister := pb.NewSignerClient(conn), pb.NewListerClient(conn)
+			for w, as := range wallets {
+				for _, a := range as {
+					full := w + "/" + a
+					epoch += 2
+					ctx, cancel := context.WithTimeout(context.Background(), 20*time.Second)
+					r1, e1 := signer.Sign(ctx, &pb.SignRequest{Id: &pb.SignRequest_Account{Account: full}, Data: Root32(1), Domain: Dom([]byte{9, 0, 0, 0}, 1)})
+					r2, e2 := signer.SignBeaconAttestation(ctx, &pb.SignBeaconAttestationRequest{Id: &pb.SignBeaconAttestationRequest_Account{Account: full}, Domain: Dom(DomainAttester, 0),
+						Data: &pb.AttestationData{Slot: 1, BeaconBlockRoot: Root32(3), Source: &pb.Checkpoint{Epoch: epoch, Root: Root32(1)}, Target: &pb.Checkpoint{Epoch: epoch + 1, Root: Root32(2)}}})
+					r3, e3 := signer.SignBeaconProposal(ctx, &pb.SignBeaconProposalRequest{Id: &pb.SignBeaconProposalRequest_Account{Account: full}, Domain: Dom(DomainProposer, 0),
+						Data: &pb.BeaconBlockHeader{Slot: epoch, ParentRoot: Root32(3), StateRoot: Root32(4), BodyRoot: Root32(5)}})
+					cancel()
+					for i, x := range []struct {
+						op string
+						ok bool
+					}{{"Sign", e1 == nil && r1.GetState() == pb.ResponseState_SUCCEEDED}, {"Sign beacon attestation", e2 == nil && r2.GetState() == pb.ResponseState_SUCCEEDED}, {"Sign beacon proposal", e3 == nil && r3.GetState() == pb.ResponseState_SUCCEEDED}} {
+						some, all := allowedInAnyOrder(model, client, w, a, x.op)
+						run.Eval(1)
+						run.Distinct(fmt.Sprintf("wire op=%d allowed-some=%v allowed-all=%v carried-out=%v", i, some, all, x.ok))
+						if x.ok && !some {
+							run.Violate(fmt.Sprintf("wire: %s carried out for %s although the configured table allows client %q to do so under no ordering of its entries", x.op, full, client), map[string]any{"table": model, "client": client})
+						}
+						if x.ok {
+							run.Count("wire_ops_carried_out", 1)
+						} else {
+							run.Count("wire_ops_refused", 1)
+						}
+					}
+				}
+			}
+			ctx, cancel := context.WithTimeout(context.Background(), 20*time.Second)
+			lr, lerr := lister.ListAccounts(ctx, &pb.ListAccountsRequest{Paths: []string{"Wallet1", "Wallet2", "Cold"}})
+			cancel()
+			if lerr == nil {
+				for _, acc := range lr.GetAccounts() {
+					w, a, _ := strings.Cut(acc.GetName(), "/")
+					if some, _ := allowedInAnyOrder(model, client, w, a, "Access account"); !some {
+						run.Violate(fmt.Sprintf("wire: listing returned %s although client %q may access it under no ordering of its entries", acc.GetName(), client), map[string]any{"table": model})
+					}
+					run.Count("wire_listed_accounts_checked", 1)
+				}
+			}
+			conn.Close()
+		}
+		d.Kill()
+	}
+	if run.Get("wire_ops_carried_out") == 0 || run.Get("wire_ops_refused") == 0 {
+		run.Inconclusive("the wire slice saw no carried-out or no refused operation")
 	}
 }
